@@ -213,6 +213,14 @@ def tags_of(o):
     return [FINDING_TAG] if any(not expressible(uncanon(f)) for f in o.get("fixed", [])) else []
 
 
+def paren_depth(t):
+    d = m = 0
+    for c in t:
+        d += 1 if c == "(" else -1 if c == ")" else 0
+        m = max(m, d)
+    return m
+
+
 def mutate(r, t):
     alphabet = ".,()*~^'\"+mp: a1\\"
     k = r.weighted([("del", 3), ("ins", 4), ("swap", 1), ("ws", 2), ("dup", 1)])
@@ -275,11 +283,14 @@ def run(chk):
     mine = [p_expr(seq, fl) for seq, fl in asts]
     muts = list(ctexts)
     nm = 2000 if chk.thorough else 260
+    maxdepth = 3 if chk.thorough else 2      # Arpeggio backtracks exponentially in the nesting of failing brackets ('(((a.()b))*': 40 s)
     for i in range(nm):
         r = chk.rng.split("m%d" % i)
-        t = r.choice(mine)
+        t0 = r.choice(mine)
+        t = t0
         for _ in range(r.range(1, 3)):
-            t = mutate(r, t)
+            t2 = mutate(r, t)
+            t = t2 if paren_depth(t2) <= max(maxdepth, paren_depth(t0)) else t
         muts.append(t)
     IMPORTS = IMPORTS_HEAD + ucls_table(mine + muts) + IMPORTS_DEFS
     exprs = ["tr {| eseq := %s; eflags := %s |}" % (c_seq(seq), c_str(fl)) for seq, fl in asts] + ["pt %s" % c_str(t) for t in muts]
